@@ -34,3 +34,13 @@ Theorem C12_reset_spec :
 Proof. exact reset_spec. Qed.
 Print Assumptions C12_reset_spec.
 
+Theorem C12_apply_cop_marks :
+  forall (F : Type) (lvalidate lto_python : F -> pyval -> res pyval) (ldefault : F -> N -> pyval) (lcallable lflag : F -> bool) (vrun : N -> list (str * pyval) -> bool) (o : cop) (w : world) (pre : str) (c : cfg) (vs : list N) (fs : list (str * node F)) (w' : world) (c' : cfg) (r : oc), no_load o = true -> declared_target F fs o = true -> apply_cop F lvalidate lto_python ldefault lcallable lflag vrun w pre c false vs fs o = (w', c', r) -> forall k : str, defined c' k = mark_effect o r k (defined c k).
+Proof. exact apply_cop_marks. Qed.
+Print Assumptions C12_apply_cop_marks.
+
+Theorem C12_defined_history :
+  forall (F : Type) (lvalidate lto_python : F -> pyval -> res pyval) (ldefault : F -> N -> pyval) (lcallable lflag : F -> bool) (vrun : N -> list (str * pyval) -> bool) (ops : list cop) (w : world) (c : cfg) (vs : list N) (fs : list (str * node F)), forallb no_load ops = true -> forallb (declared_target F fs) ops = true -> forall k : str, defined (snd (run_marks F lvalidate lto_python ldefault lcallable lflag vrun ops w c vs fs)) k = spec_marks (fst (run_marks F lvalidate lto_python ldefault lcallable lflag vrun ops w c vs fs)) k (defined c k).
+Proof. exact defined_history. Qed.
+Print Assumptions C12_defined_history.
+
